@@ -344,10 +344,22 @@ def run(tier, res, replay=None):
         'r_frac': [0.0, 0.33333, 0.66667], 'pu_frac': [0.2, 0.2, 0.2],
         'zr_frac': [0.1, 0.1, 0.1], 'porosity': [0.25, 0.2, 0.15]}
     rec_cases.append(('rod2-metalfuel-film-user', c))
+    from harness.scenarios import fitted_type, layout_positions, make_core, \
+        flow_for, bundle_type
+    # steps on which the pins produce no heat (an unheated length above the
+    # fuel; duct / coolant heating only): every pin temperature is the local
+    # coolant temperature there
+    c = make_core(rng, {'a1': bundle_type(2)}, [(1, 1, 'a1')],
+                  [flow_for(bundle_type(2))], gap_model='flow',
+                  bypass_fraction=0.05, ncell=3, power_order=1,
+                  zero_cells=(2,))
+    rec_cases.append(('rod2-pins-unheated-top', trackcheck.with_pins(c)))
+    c = make_core(rng, {'a1': bundle_type(2)}, [(1, 1, 'a1')],
+                  [flow_for(bundle_type(2))], gap_model='none', ncell=2,
+                  comps=('duct', 'cool'))
+    rec_cases.append(('rod2-pins-no-pin-power', trackcheck.with_pins(c)))
     # one type at several positions, powers and flows differing: every
     # assembly keeps its own pin temperatures
-    from harness.scenarios import fitted_type, layout_positions, make_core, \
-        flow_for
     T1 = fitted_type(2, 0.060)
     fb = flow_for(T1, 0.1)
     c = make_core(rng, {'T': T1},
